@@ -15,10 +15,11 @@ assert patch.strip(), 'no change applied'
 base = run('/venv/bin/python %s/tools_baseline.py %s' % (V, wt))
 with_rc = run(democmd, cwd=wt).returncode
 # NOTE: refs/stash is shared by all worktrees of a repository - never use git stash here
-open('/var/tmp/_seed_patch.diff', 'w').write(patch)
-assert run('git -C %s apply -R /var/tmp/_seed_patch.diff' % wt).returncode == 0
+PF = '/var/tmp/_seed_patch_%s.diff' % sid
+open(PF, 'w').write(patch)
+assert run('git -C %s apply -R %s' % (wt, PF)).returncode == 0
 without_rc = run(democmd, cwd=wt).returncode
-assert run('git -C %s apply /var/tmp/_seed_patch.diff' % wt).returncode == 0
+assert run('git -C %s apply %s' % (wt, PF)).returncode == 0
 assert run('git -C %s diff -- bfg9000' % wt).stdout == patch
 env = dict(os.environ, VERIF_REPO=wt)
 res = {}
